@@ -626,19 +626,81 @@ func (e *Engine) evalContractOnOutputs(rc *replayCtx, model map[string]*big.Int,
 			}
 		}
 	}
-	for k, cl := range fc.Ensures {
-		g := en2.evalBool(cl.Expr)
-		asserts := append(append([]*smt.Term(nil), r.facts...), c.Not(g))
-		sc := c.Print(asserts, nil, smt.PrintOpts{})
-		res := solve.Race(scratch, fmt.Sprintf("replay_ensures_%d", k), sc.Text, 20, sc.HasQ, false)
-		switch res.Status {
-		case "sat":
-			violated = append(violated, "ensures "+cl.Text)
-		case "unsat":
-		default:
-			undecided = append(undecided, "ensures "+cl.Text)
+	type ensInst struct {
+		cl  *contract.Clause
+		en  *env
+		tag string
+	}
+	var all []ensInst
+	for _, cl := range fc.Ensures {
+		if cl.Foreach == nil {
+			all = append(all, ensInst{cl, en2, ""})
+			continue
+		}
+		fis, err := e.foreachInstances(cl.Foreach, pkg)
+		if err != nil {
+			undecided = append(undecided, "ensures "+cl.Text+": "+err.Error())
+			continue
+		}
+		for _, fi := range fis {
+			sub := en2.child()
+			sub.vars[fi.Var] = fi.Val
+			all = append(all, ensInst{cl, sub, " [" + fi.Label + "]"})
 		}
 	}
+	type pending struct {
+		g    *smt.Term
+		text string
+	}
+	var pend []pending
+	for _, ei := range all {
+		cl := ei.cl
+		g := ei.en.evalBool(cl.Expr)
+		if g.IsTrue() {
+			continue
+		}
+		if g.IsFalse() {
+			violated = append(violated, "ensures "+cl.Text+ei.tag)
+			continue
+		}
+		pend = append(pend, pending{g, "ensures " + cl.Text + ei.tag})
+	}
+	if len(pend) == 0 || len(violated) > 0 {
+		return
+	}
+	// one query for the conjunction first: the common case is that the real outputs satisfy everything
+	var gs []*smt.Term
+	for _, p := range pend {
+		gs = append(gs, p.g)
+	}
+	asserts := append(append([]*smt.Term(nil), r.facts...), c.Not(c.And(gs...)))
+	sc := c.Print(asserts, nil, smt.PrintOpts{})
+	res := solve.Race(scratch, "replay_ensures_all", sc.Text, 30, sc.HasQ, false)
+	if res.Status == "unsat" {
+		return
+	}
+	if res.Status != "sat" {
+		undecided = append(undecided, fmt.Sprintf("conjunction of %d clauses: %s", len(pend), res.Status))
+		return
+	}
+	// some clause is violated: bisect to name one
+	lo, hi := 0, len(pend)
+	for n := 0; hi-lo > 1; n++ {
+		mid := (lo + hi) / 2
+		var half []*smt.Term
+		for _, p := range pend[lo:mid] {
+			half = append(half, p.g)
+		}
+		asserts := append(append([]*smt.Term(nil), r.facts...), c.Not(c.And(half...)))
+		sc := c.Print(asserts, nil, smt.PrintOpts{})
+		res := solve.Race(scratch, fmt.Sprintf("replay_bisect_%d", n), sc.Text, 20, sc.HasQ, false)
+		if res.Status == "sat" {
+			hi = mid
+		} else {
+			lo = mid
+		}
+	}
+	violated = append(violated, pend[lo].text)
 	return
 }
 
